@@ -120,6 +120,11 @@ impl Next<f64> for RelativeStrengthIndex {
         self.prev_val = input;
         let up_ema = self.up_ema_indicator.next(up);
         let down_ema = self.down_ema_indicator.next(down);
+        // No gains and no losses left (flat prices, e.g. after the seed has decayed away):
+        // return the neutral value instead of 0/0.
+        if up_ema + down_ema == 0.0 {
+            return 50.0;
+        }
         100.0 * up_ema / (up_ema + down_ema)
     }
 }
